@@ -130,6 +130,8 @@ func normalizeDivision(s *slip.Scope, depth int, f slip.Object, args slip.List) 
 // slip.NormalizeNumber except that a bignum paired with a ratio becomes a
 // ratio instead of both becoming long-floats so no precision is lost.
 func normalizeReals(v0, v1 slip.Object) (slip.Object, slip.Object) {
+	v0 = canonicalNumber(v0)
+	v1 = canonicalNumber(v1)
 	switch t0 := v0.(type) {
 	case *slip.Bignum:
 		if _, ok := v1.(*slip.Ratio); ok {
